@@ -159,12 +159,21 @@ def gen_cell(rng, n):
     if rng.chance(30):
         d["kinds"]["surface"] = rng.choice(["plain", "plain", "diffuse", "donnan", "no_edl"])
     if rng.chance(25):
-        d["kinds"]["gas_phase"] = {"type": rng.choice(["fixed_pressure", "fixed_volume"]), "co2": rng.choice([0.001, 0.05]), "n2": rng.choice([0, 0.5]), "o2": rng.choice([0, 0, 0.05])}
+        d["kinds"]["gas_phase"] = {"type": rng.choice(["fixed_pressure", "fixed_volume"]), "co2": rng.choice([0, 0.001, 0.05]), "n2": rng.choice([0, 0.5, 0.5]), "o2": rng.choice([0, 0, 0.05])}
     if rng.chance(20):
         d["kinds"]["solid_solutions"] = [rng.choice([0.001, 0.01]), rng.choice([0, 0.001])]
     if rng.chance(30):
         d["kinds"]["kinetics"] = {"rate": rng.choice(["lin", "first"]), "formula": rng.choice([[["NaCl", 1]], [["CaCl2", 0.5], ["NaCl", 1]], [["Calcite", 1]], [["NaCl", -1]]]), "m0": rng.choice([0.001, 0.01]),
                                   "parm": rng.choice([1e-7, 1e-6]), "steps": rng.choice([[100], [100, 200], [1000]]), "cvode": rng.chance(30)}
+    if rng.chance(25):
+        # edge case: an element that is absent from the whole cell while a gas phase / phase list still names it with zero moles
+        d["sol"]["C"] = 0
+        d["kinds"].pop("solid_solutions", None)
+        if "equilibrium_phases" in d["kinds"]:
+            d["kinds"]["equilibrium_phases"] = [[p, si, 0] if p in ("Calcite", "Dolomite", "CO2(g)") else [p, si, m] for p, si, m in d["kinds"]["equilibrium_phases"] if p == "Gypsum"] or [["Gypsum", 0, 0.01]]
+        if "kinetics" in d["kinds"] and any(a == "Calcite" for a, b in d["kinds"]["kinetics"]["formula"]):
+            d["kinds"]["kinetics"]["formula"] = [["NaCl", 1]]
+        d["kinds"]["gas_phase"] = {"type": rng.choice(["fixed_pressure", "fixed_volume"]), "co2": 0, "n2": 0.5, "o2": rng.choice([0, 0.05])}
     return d
 
 
@@ -203,9 +212,12 @@ def cell_text(c):
 def generate(rng, tier, index):
     cells = [gen_cell(rng, n) for n in range(1, rng.range(2, 4) + 1)]
     steps = []
+    last_b = None
     for _ in range(rng.range(2, 7)):
         r = rng.below(100)
         a = rng.choice(cells)["n"]
+        if last_b is not None and rng.chance(45):
+            a = last_b            # chaining: this step uses what the previous one saved
         if r < 55:
             rx = None
             if rng.chance(75):
@@ -213,7 +225,13 @@ def generate(rng, tier, index):
                 amounts = rng.choice([[1], [0.5, 1, 2], [3], [10], [0.1, 0.2]])
                 rx = {"names": [[nm, rng.choice([1, 0.5, 2])] for nm in names], "amounts": amounts, "unit": rng.choice(["mmol", "mmol", "umol"]), "incremental": rng.chance(30),
                       "negative": False}      # withdrawals beyond what a cell holds are clipped by the engine without an error: not modelled, not generated
-            steps.append({"op": "react", "a": a, "b": rng.choice([a, a, rng.range(1, 4)]), "rx": rx, "temp": rng.choice([None, None, 40, 60])})
+            extra = None
+            if rng.chance(40):
+                # an unrelated entity defined in the same simulation as the reaction step (cell 7 or 8 is never stepped)
+                extra = {"kind": rng.choice(["gas_phase", "gas_phase", "gas_phase", "equilibrium_phases", "exchange", "solid_solutions"]), "n": rng.range(7, 8), "v": rng.range(1, 5),
+                         "pr": rng.chance(50)}
+            steps.append({"op": "react", "a": a, "b": rng.choice([a, a, rng.range(1, 4)]), "rx": rx, "temp": rng.choice([None, None, 40, 60]), "extra": extra})
+            last_b = steps[-1]["b"]
         elif r < 75:
             steps.append({"op": "run_cells", "a": a, "time_step": rng.choice([0, 50, 500])})
         elif r < 90:
@@ -238,6 +256,18 @@ def step_text(st, present):
         used = [kd for kd in SAVABLE + ["kinetics"] if (kd, a) in present]
         for kd in used:
             t += "USE %s %d\n" % (kd, a)
+        ex = st.get("extra")
+        if ex and ex["kind"] not in used:
+            t += "USE %s none\n" % ex["kind"]       # a reactant defined in this simulation would otherwise take part in the step
+        if ex:
+            if ex["kind"] == "gas_phase":
+                t = "GAS_PHASE %d\n -fixed_volume\n -volume 1\n%s CO2(g) 0.%d\n N2(g) 0.%d\n" % (ex["n"], " -pressure 60\n" if ex["pr"] else "", ex["v"], ex["v"]) + t
+            elif ex["kind"] == "equilibrium_phases":
+                t = "EQUILIBRIUM_PHASES %d\n Calcite 0 0.%d\n" % (ex["n"], ex["v"]) + t
+            elif ex["kind"] == "exchange":
+                t = "EXCHANGE %d\n NaX 0.0%d\n" % (ex["n"], ex["v"]) + t
+            else:
+                t = "SOLID_SOLUTIONS %d\n CaSr\n -comp Calcite 0.0%d\n -comp Strontianite 0.00%d\n" % (ex["n"], ex["v"], ex["v"]) + t
         rx = st["rx"]
         if rx:
             t += "REACTION 9\n" + "".join(" %s %s\n" % (nm, cf) for nm, cf in rx["names"])
@@ -248,6 +278,8 @@ def step_text(st, present):
             t += "REACTION_TEMPERATURE 9\n %s\n" % st["temp"]
         if not used and not rx and not st["temp"]:
             return None
+        if rx is None and not st["temp"] and not any(kd in SAVABLE for kd in used):
+            pass
         t += "SAVE solution %d\n" % b
         for kd in used:
             if kd != "kinetics":
@@ -373,6 +405,8 @@ def check_plan(ctx, plan):
         else:
             src, dst = [], []
         named = set(dst)
+        if st.get("extra"):
+            named.add((st["extra"]["kind"], st["extra"]["n"]))
         missing = [key for _, key in src if key not in eb] + [key for key in dst if key not in ea]
         if missing:
             rep.viol("ledger", "C02:entity_missing", "%s: entities %r expected by the step are not in the dump" % (what, missing))
